@@ -1,5 +1,7 @@
 import XV.Props.C02
 import XV.Lemmas.UndoKeys
+import XV.Lemmas.UndoObs
+import XV.Lemmas.UndoFee
 /-!
 C01 — the state at a block is a pure function of its chain: undoing exactly cancels playing.
 Transaction level: `undoTx (applyTx s t) t` restores every row of the UTXO table and the total
@@ -369,5 +371,89 @@ example :
     let s : St := { ZU := [("a", (1, 0))], ZD := [("a", (9, 9))] }
     lookup (undoTx kvEnv (applyTx s (kvEnv.tx 3)) (kvEnv.tx 3)).ZD "a" = none ∧ lookup s.ZD "a" = some (9, 9) ∧
     curVer (undoTx kvEnv (applyTx s (kvEnv.tx 3)) (kvEnv.tx 3)) "a" = curVer s "a" := by decide
+
+-- ================================================================== observational equivalence
+
+/-- **`≈` (`Obs`, Lemmas/UndoObs.lean: same UTXO rows, same current version of every key, same total, pointer,
+irreversible height and pool) is an equivalence relation** -/
+theorem obs_equiv : (∀ s : St, s ≈ s) ∧ (∀ s s' : St, s ≈ s' → s' ≈ s) ∧
+    (∀ a b c : St, a ≈ b → b ≈ c → a ≈ c) :=
+  ⟨Obs.refl, fun _ _ h => Obs.symm h, fun _ _ _ h1 h2 => Obs.trans h1 h2⟩
+
+/-- **admission cannot tell equivalent states apart** -/
+theorem admitTx_congr (s s' : St) (lh : Int) (t : Tx) (h : s ≈ s') : admitTx s lh t = admitTx s' lh t :=
+  admitTx_congr' s s' lh t h
+
+/-- **applying a transaction respects `≈`** -/
+theorem applyTx_congr (s s' : St) (t : Tx) (h : s ≈ s') : applyTx s t ≈ applyTx s' t :=
+  applyTx_congr' s s' t h
+
+/-- **undoing a transaction respects `≈`** on states where the undo is safe (`UndoSafe`: no recycle row under a key
+that `t` cites as never written and writes without deleting — the only raw ZD read of `undoKOut`; it holds right
+after `applyTx`, `undoSafe_applyTx`, and is inherited along `Refines`). Without it the statement is false:
+`undoTx_congr_needs_safe` below. -/
+theorem undoTx_congr (e : Env) (s s' : St) (t : Tx) (hnd : koutDistinct t)
+    (h1 : UndoSafe s t) (h2 : UndoSafe s' t) (h : s ≈ s') : undoTx e s t ≈ undoTx e s' t :=
+  undoTx_congr' e s s' t hnd h1 h2 h
+
+/-- the unconditional congruence of `undoTx` for `≈` -/
+def undoTx_congr_statement : Prop :=
+  ∀ (e : Env) (s s' : St) (t : Tx), koutDistinct t → s ≈ s' → undoTx e s t ≈ undoTx e s' t
+
+/-- **`payFee` respects `≈`** -/
+theorem payFee_congr (t : Tx) (prop : String) (l : List Out) (off : Nat) (s s' : St) (h : s ≈ s') :
+    payFee t prop l off s ≈ payFee t prop l off s' :=
+  payFee_congr' t prop l off s s' h
+
+/-- **`undoPayFee` respects `≈`** -/
+theorem undoPayFee_congr (t : Tx) (l : List Out) (off : Nat) (s s' : St) (h : s ≈ s') :
+    undoPayFee t l off s ≈ undoPayFee t l off s' :=
+  undoPayFee_congr' t l off s s' h
+
+-- non-vacuity: two states that differ in a hidden recycle row are equivalent, and stay so under the operations
+private def obsA : St := { U := [((0, 0), ⟨"u0", 5, 0⟩)], ZU := [("a", (1, 0))], ZD := [("a", (9, 9)), ("b", (2, 0))] }
+private def obsB : St := { U := [((0, 0), ⟨"u0", 5, 0⟩)], ZU := [("a", (1, 0))], ZD := [("b", (2, 0))] }
+
+private theorem obsA_B : obsA ≈ obsB :=
+  ⟨fun _ => rfl, fun key => by
+    unfold curVer obsA obsB
+    simp only [lookup]
+    split <;> simp_all, rfl, rfl, rfl, rfl⟩
+
+example : obsA ≈ obsB ∧ obsA.ZD ≠ obsB.ZD := ⟨obsA_B, by decide⟩
+example : UndoSafe obsA (kvEnv.tx 3) ∧ UndoSafe obsB (kvEnv.tx 3) ∧ koutDistinct (kvEnv.tx 3) := by
+  unfold UndoSafe; decide
+example : undoTx kvEnv obsA (kvEnv.tx 3) ≈ undoTx kvEnv obsB (kvEnv.tx 3) :=
+  undoTx_congr kvEnv obsA obsB (kvEnv.tx 3) (by decide) (by unfold UndoSafe; decide) (by unfold UndoSafe; decide) obsA_B
+
+/-- the unconditional statement is false: transaction 1 of `kvEnv` creates "a" citing "never written"; undoing it
+on `obsA` uncovers the stale marker (9,9), on `obsB` the key is gone -/
+theorem undoTx_congr_needs_safe : ¬ undoTx_congr_statement := by
+  intro h
+  have := (h kvEnv obsA obsB (kvEnv.tx 1) (by decide) obsA_B).ver "a"
+  revert this
+  decide
+
+-- ================================================================== fees
+
+/-- **`undoPayFee` after `payFee` restores every row of the UTXO table** when the fee rows — (t.id, off + i) for
+every output i to the placeholder "$" — were absent before -/
+theorem undoPayFee_payFee (t : Tx) (prop : String) (outs : List Out) (off : Nat) (s : St)
+    (habs : ∀ i o, outs[i]? = some o → (o.addr == "$") = true → lookup s.U (t.id, off + i) = none) :
+    (∀ k, lookup (undoPayFee t outs off (payFee t prop outs off s)).U k = lookup s.U k) ∧
+    undoPayFee t outs off (payFee t prop outs off s) ≈ s := by
+  have hU := undoPayFee_payFee' t prop outs off s habs
+  obtain ⟨_, _, a0, a1, a2, a3⟩ := undoPayFee_frame t outs off (payFee t prop outs off s)
+  obtain ⟨_, _, b0, b1, b2, b3⟩ := payFee_frame t prop outs off s
+  exact ⟨hU, ⟨hU, fun key => by rw [undoPayFee_curVer, payFee_curVer], a0.trans b0, a1.trans b1, a2.trans b2,
+    a3.trans b3⟩⟩
+
+-- non-vacuity: the transfer of the first example (fee 2 at offset 2) applied, fee paid to "miner", fee undone
+example :
+    let t : Tx := ⟨1, false, [⟨0, 0, "u0", 5, 0, false⟩], [⟨"u1", 3, 0⟩, ⟨"u2", 0, 0⟩, ⟨"$", 2, 0⟩], [], []⟩
+    let s : St := applyTx { U := [((0, 0), ⟨"u0", 5, 0⟩)] } t
+    (∀ i ∈ [0, 1, 2], ∀ o, t.outs[i]? = some o → (o.addr == "$") = true → lookup s.U (t.id, 0 + i) = none) ∧
+    lookup (payFee t "miner" t.outs 0 s).U (1, 2) = some ⟨"miner", 2, 0⟩ ∧
+    (undoPayFee t t.outs 0 (payFee t "miner" t.outs 0 s)).U = s.U := by decide
 
 end XV.C01
